@@ -90,11 +90,11 @@ func ethVerify(bsc bool, kind int) {
 	stored := value32 // what the contract's storage slot holds (big-endian, minimal)
 	switch kind {
 	case 1:
-		pathKey = host.PacketCommitmentKey(src, dst, seq)
+		pathKey = []byte(refCommitmentPath(src, dst, seq))
 	case 2:
-		pathKey = host.PacketAcknowledgementKey(src, dst, seq)
+		pathKey = []byte(refAckPath(src, dst, seq))
 	default:
-		pathKey = host.CleanPacketCommitmentKey(src, dst)
+		pathKey = []byte(refCleanPath(src, dst))
 		vp.Assume(seq >= 1)
 		stored = new(big.Int).SetUint64(seq).Bytes()
 	}
